@@ -154,7 +154,7 @@ def f_Format(args):
         else:
             out.append(c); i += 1
     if k != len(vals):
-        raise IntrinsicFailure("too many arguments")
+        raise Unspecified("more arguments than placeholders")
     return "".join(out)
 
 def need(cond, msg="bad arguments"):
@@ -190,7 +190,9 @@ def f_ArrayContains(a):
 
 def f_ArrayRange(a):
     need(len(a) == 3 and all(is_int(x) for x in a) and a[2] != 0)
-    out = list(range(a[0], a[1] + (1 if a[2] > 0 else -1), a[2]))
+    if a[2] < 0:
+        raise Unspecified("negative increment")
+    out = list(range(a[0], a[1] + 1, a[2]))
     need(len(out) <= 1000)
     return out
 
